@@ -765,6 +765,24 @@ def check_case(ctx: Ctx, case, model_out, opaque, mods) -> None:
             ctx.violation(f"evaluate-raises:{name}", f"evaluate raised {type(e).__name__}: {str(e)[:200]}", replay)
         return
     ctx.cov.setdefault("batch_sizes", set()).add(batch)
+    # compiling is a function of the diagrams: compiling the SAME graph objects a second time (as any caller holding the list may do)
+    # gives a program with the same values, and the diagrams' own scalars still evaluate to what they did before
+    if kept and len(rows) and not case.get("no_recompile"):
+        try:
+            comp2 = CC.compile_scalar_graphs(graphs_py, list(params))
+            sub = rows[: min(len(rows), 8)]
+            again = run_impl(case, sub, len(sub), EV, comp2)
+            ctx.count(("recompile", name), nontrivial=bool(kinds), bucket="compile-twice")
+            for ri in range(len(sub)):
+                if not (abs(again[ri] - got[ri]) <= 1e-5 * max(1.0, abs(got[ri]))):
+                    rp = dict(replay)
+                    rp["rows"] = [sub[ri].tolist()]
+                    rp["recompile"] = True
+                    ctx.violation(f"compile-twice:{name}", f"compiling the same scalar graphs a second time gives {again[ri]} where the first compilation gave {got[ri]} "
+                                  f"on {name} (compile_scalar_graphs changed its input)", rp)
+                    break
+        except Exception as e:  # noqa
+            ctx.violation(f"compile-twice-raises:{name}", f"compiling the same scalar graphs a second time raised {type(e).__name__}: {str(e)[:200]}", replay)
 
     # ---- compare
     worst = None
